@@ -314,8 +314,7 @@ pub fn minimise(fam: &dyn Family, v: &Violation, isolated: bool, exe: &Path) -> 
             }
         } else {
             let mut st = Stats::default();
-            let r = std::panic::catch_unwind(std::panic::AssertUnwindSafe(|| fam.judge(s, &mut st)));
-            r.ok().and_then(|vs| vs.into_iter().find(|x| x.clause == v.clause).map(|x| x.detail))
+            crate::family::judge_on_fresh_thread(fam, s, &mut st).ok().and_then(|vs| vs.into_iter().find(|x| x.clause == v.clause).map(|x| x.detail))
         }
     };
     let mut best = v.scenario.clone();
